@@ -1729,6 +1729,83 @@ class FindMissing(FnSpec):
         ]
 
 
+# ---- TOCLinks.find_broken / resolve ----------------------------------------------------------------------------------------------------------------
+TARGET_EXISTS = z3.Function("target_path_exists_in_the_container", S_, z3.BoolSort())
+
+
+class UuidBag(SVal):
+    """the list `broken`: only which uuids it holds matters (each key is visited once, so no duplicates)"""
+
+    def __init__(self):
+        self.s = SSet(TUuid())
+
+    def meth_append(self, cx, u):
+        self.s.py_call_method(cx, "add", [u], {})
+
+    def py_iter_schema(self, cx):
+        from pyvc.containers import SetIter
+
+        return SetIter(TUuid(), self.s.dom, lambda t: UuidV(t))
+
+    def havoc_inplace(self, cx, hint="broken"):
+        self.s.havoc_inplace(cx, hint)
+
+
+class FindBroken(FnSpec):
+    file = "container/interface.py"
+    qual = "TOCLinks.find_broken"
+    props = ("C06",)
+
+    def init(self):
+        def inv_scan(cx, env, it):
+            a = cx.ghost["fb"]
+            u = z3.Const(fresh_name("bu"), UU)
+            return [("broken-so-far", z3.ForAll([u], a.bag.s.has(u) == z3.And(z3.Select(it.processed, u), z3.Not(TARGET_EXISTS(RESOLVED(u))))))]
+
+        def inv_repair(cx, env, it):
+            a = cx.ghost["fb"]
+            u = z3.Const(fresh_name("ru"), UU)
+            return [("unregistered-so-far", z3.ForAll([u], a.unreg.has(u) == z3.Select(it.processed, u))), ("result-not-edited", a.bag.s.same(cx, a.bag_at_repair) if a.get("bag_at_repair") is not None else z3.BoolVal(True))]
+
+        self.loops[("iter", "self._toc_path.keys()")] = LoopSpec(inv_scan, modifies=["uuid", "target"], havoc_inplace=["broken"])
+        self.loops[("iter", "broken")] = LoopSpec(inv_repair, modifies=["uuid"], havoc_inplace=["self.unregistered_log"])
+
+    def empty_container(self, cx, name, ann):
+        return cx.ghost["fb"].bag if name == "broken" else None
+
+    def setup(self, cx):
+        o = SObj("TOCLinksFind", name="self")
+        tp = SMap.fresh(TUuid(), STR, "toc_path")
+        o.fields["_toc_path"] = tp
+        o.fields["resolve"] = lambda cx2, u: SStr(RESOLVED(u.t))
+
+        class Raw(SVal):
+            def py_contains(s, cx2, p):
+                return SBool(TARGET_EXISTS(p.t))
+
+        o.fields["_raw"] = Raw()
+        unreg = SSet(TUuid())
+        o.fields["unregistered_log"] = unreg
+        o.fields["unregister"] = lambda cx2, u: unreg.py_call_method(cx2, "add", [u], {})
+        rep = SBool(z3.Bool("repair_flag"))
+        a = A(self=o, repair=rep)
+        a.tp, a.bag, a.unreg, a.rep = tp, UuidBag(), unreg, rep
+        a.bag_at_repair = None
+        cx.ghost["fb"] = a
+        return a
+
+    def raises(self, cx, a):
+        return {}
+
+    def ensures(self, cx, a, res):
+        u = z3.Const(fresh_name("eu"), UU)
+        want = z3.And(a.tp.has(u), z3.Not(TARGET_EXISTS(RESOLVED(u))))
+        return [
+            ("exactly-the-links-whose-target-is-gone", z3.And(z3.BoolVal(res is a.bag), z3.ForAll([u], a.bag.s.has(u) == want)), "reported are exactly the uuids of links pointing at a path that does not exist in the container"),
+            ("repaired-only-when-asked-and-then-exactly-those", z3.ForAll([u], a.unreg.has(u) == z3.And(a.rep.t, want)), "with repair=True exactly these links are unregistered; without it nothing is touched"),
+        ]
+
+
 def add_tocreg(reg):
     reg.set_class_home("TOCPackages", "container/interface.py")
     reg.attr_bindings[("PkgInfo", "plugins")] = lambda cx, o: PluginsStub(o.t)
@@ -1742,7 +1819,7 @@ def add_tocreg(reg):
     reg.attr_bindings[("PkgInfo", "version")] = lambda cx, o: VER.wrap(INFO_VER(o.t))
     reg.attr_bindings[("SchemaRef", "name")] = lambda cx, o: SStr(REF_NAME(o.t))
     reg.attr_bindings[("SchemaRef", "version")] = lambda cx, o: VER.wrap(REF_VER(o.t))
-    specs = [AddProviders(), PkgRegister(), PkgUnregister(), SchemaRegister(), SchemaUnregister(), LinksRegister(), LinksUnregister(), LinksUpdate(), SchemasInit(), PackagesInit(), LinksInit(), RepairMissing(), FreshUuid(), FindMissing()]
+    specs = [AddProviders(), PkgRegister(), PkgUnregister(), SchemaRegister(), SchemaUnregister(), LinksRegister(), LinksUnregister(), LinksUpdate(), SchemasInit(), PackagesInit(), LinksInit(), RepairMissing(), FreshUuid(), FindMissing(), FindBroken()]
     for s in specs:
         reg.add(s)
     return specs
